@@ -14,6 +14,7 @@ import (
 	"go/token"
 	"os"
 	"path/filepath"
+	"regexp"
 	"runtime"
 	"sort"
 	"strconv"
@@ -25,6 +26,9 @@ const fac = "github.com/IrineSistiana/mosproxy/verifsim/"
 type rule struct {
 	dir   string
 	swaps map[string][2]string // import path -> {new path, default identifier}
+	// ordered lists, per file, the map expressions whose `range` statements
+	// are rewritten to scheduler-independent iteration (sync.Ordered).
+	ordered map[string][]string
 }
 
 var rules = []rule{
@@ -34,17 +38,17 @@ var rules = []rule{
 		"golang.org/x/net/ipv6":        {fac + "vipv6", "ipv6"},
 		"github.com/panjf2000/gnet/v2": {fac + "vgnet", "gnet"},
 		"github.com/IrineSistiana/mosproxy/internal/udpcmsg": {fac + "vudpcmsg", "udpcmsg"},
-	}},
+	}, map[string][]string{"router.go": {"r.upstreams"}}},
 	{"internal/upstream", map[string][2]string{
 		"net": {fac + "vnet", "net"},
-	}},
+	}, nil},
 	{"internal/upstream/transport", map[string][2]string{
 		"sync": {fac + "vsync", "sync"},
-	}},
+	}, map[string][]string{"reuse_transport.go": {"t.idleConns", "t.conns"}}},
 	{"internal/pool", map[string][2]string{
 		"github.com/IrineSistiana/bytespool": {fac + "vbytes", "bytespool"},
 		"github.com/IrineSistiana/gopool":    {fac + "vgopool", "gopool"},
-	}},
+	}, nil},
 }
 
 const routerShim = `package router
@@ -98,6 +102,9 @@ func main() {
 			b, err := os.ReadFile(src)
 			must(err)
 			nb, changed, err := rewrite(src, b, r.swaps)
+			if err == nil && changed {
+				nb = orderRanges(nb, r.ordered[name])
+			}
 			if err != nil {
 				fatal("rewrite %s: %v", src, err)
 			}
@@ -121,12 +128,46 @@ func main() {
 		const anchor = "\tglobalRand.state.Init(*seed)\n"
 		if strings.Count(string(b), anchor) == 1 {
 			nb := strings.Replace(string(b), anchor, "\tfor i := range seed { seed[i] = byte(i*7 + 1) }; globalRand.state.Init(*seed)\n", 1)
+			// Randomness drawn by ordinary goroutines (select order, map
+			// iteration start, map hash seeds, math/rand/v2 top-level
+			// functions) comes from one process-wide stream instead of the
+			// per-M state, so it does not depend on which OS thread happens
+			// to run the goroutine.  Scheduler-internal draws (on g0) keep
+			// the per-M state and do not disturb the stream.
+			const a1 = "func rand() uint64 {\n"
+			const a2 = "func cheaprand() uint32 {\n"
+			if strings.Count(nb, a1) == 1 && strings.Count(nb, a2) == 1 {
+				nb = strings.Replace(nb, a1, a1+"\tif gp := getg(); gp.m != nil && gp != gp.m.g0 && gp != gp.m.gsignal {\n\t\tsimRandState += 0x9e3779b97f4a7c15\n\t\tz := simRandState\n\t\tz = (z ^ (z >> 30)) * 0xbf58476d1ce4e5b9\n\t\tz = (z ^ (z >> 27)) * 0x94d049bb133111eb\n\t\treturn z ^ (z >> 31)\n\t}\n", 1)
+				nb = strings.Replace(nb, a2, a2+"\tif gp := getg(); gp.m != nil && gp != gp.m.g0 && gp != gp.m.gsignal {\n\t\tsimCheapState += 0xa0761d6478bd642f\n\t\thi, lo := math.Mul64(simCheapState, simCheapState^0xe7037ed1a0b428db)\n\t\treturn uint32(hi ^ lo)\n\t}\n", 1)
+				nb += "\nvar simRandState, simCheapState uint64 = 0x5eed5eed5eed5eed, 0x0123456789abcdef\n"
+				fmt.Println("simgen: goroutine-level runtime randomness made thread-independent")
+			} else {
+				fmt.Println("simgen: WARNING rand()/cheaprand() anchors not found")
+			}
 			dst := filepath.Join(*out, "runtime_rand.go")
 			must(os.WriteFile(dst, []byte(nb), 0o644))
 			replace[rp] = dst
 			fmt.Println("simgen: runtime seed pinned")
 		} else {
 			fmt.Println("simgen: WARNING runtime/rand.go anchor not found; seed not pinned")
+		}
+	}
+	if *pinSeed {
+		// No sysmon-driven preemption and no P hand-off during (short)
+		// system calls: goroutines switch only where they block, so the
+		// interleaving does not depend on machine load.
+		pp := filepath.Join(runtime.GOROOT(), "src/runtime/proc.go")
+		b, err := os.ReadFile(pp)
+		must(err)
+		const anchor = "func retake(now int64) uint32 {\n"
+		if strings.Count(string(b), anchor) == 1 {
+			nb := strings.Replace(string(b), anchor, anchor+"\tif retakeDisabled {\n\t\treturn 0\n\t}\n", 1) + "\nvar retakeDisabled = true\n"
+			dst := filepath.Join(*out, "runtime_proc.go")
+			must(os.WriteFile(dst, []byte(nb), 0o644))
+			replace[pp] = dst
+			fmt.Println("simgen: sysmon retake disabled")
+		} else {
+			fmt.Println("simgen: WARNING retake anchor not found")
 		}
 	}
 	ov, _ := json.MarshalIndent(map[string]any{"Replace": replace}, "", " ")
@@ -179,6 +220,37 @@ func rewrite(path string, src []byte, swaps map[string][2]string) ([]byte, bool,
 	dir := fmt.Sprintf("/*line %s:%d:%d*/", path, pos.Line, pos.Column)
 	out = append(out[:pkgOff], append([]byte(dir), out[pkgOff:]...)...)
 	return out, true, nil
+}
+
+var rangeRe = regexp.MustCompile(`(?m)^(\s*)for (\w+)(?:, (\w+))? := range ([\w.]+) \{[ \t]*$`)
+
+// orderRanges rewrites `for k[, v] := range <expr> {` for the listed map
+// expressions; the line count is unchanged.
+func orderRanges(src []byte, exprs []string) []byte {
+	if len(exprs) == 0 {
+		return src
+	}
+	want := map[string]bool{}
+	for _, e := range exprs {
+		want[e] = true
+	}
+	return rangeRe.ReplaceAllFunc(src, func(m []byte) []byte {
+		sm := rangeRe.FindSubmatch(m)
+		expr := string(sm[4])
+		if !want[expr] {
+			return m
+		}
+		k, v := string(sm[2]), string(sm[3])
+		out := fmt.Sprintf("%sfor _, %s := range sync.Ordered(%s) {", sm[1], k, expr)
+		if k == "_" {
+			k = "k__"
+			out = fmt.Sprintf("%sfor _, %s := range sync.Ordered(%s) {", sm[1], k, expr)
+		}
+		if v != "" && v != "_" {
+			out += fmt.Sprintf(" %s := %s[%s];", v, expr, k)
+		}
+		return []byte(out)
+	})
 }
 
 func must(err error) {
